@@ -291,6 +291,148 @@ fn ref_walk(r: lexpr::datum::Ref<'_>, data: &[u8], opts: lexpr::parse::Options, 
     }
 }
 
+/// C05: exact-value oracle for a text that is a numeric literal of the documented grammar.
+/// Returns None if the text is not such a literal.
+pub fn numeric_oracle(text: &[u8], res: &str, fast: bool) -> Option<String> {
+    let t = std::str::from_utf8(text).ok()?;
+    let got_int: Option<i128> = {
+        let f: Vec<&str> = res.split_whitespace().collect();
+        if f.len() == 2 && f[0] == "val" && (f[1].starts_with('P') || f[1].starts_with('M')) { f[1][1..].parse::<i128>().ok() } else { None }
+    };
+    let got_float: Option<f64> = {
+        let f: Vec<&str> = res.split_whitespace().collect();
+        if f.len() == 2 && f[0] == "val" && f[1].starts_with('D') && f[1].len() == 17 { u64::from_str_radix(&f[1][1..], 16).ok().map(f64::from_bits) } else { None }
+    };
+    let is_oor = res.starts_with("err numberOutOfRange");
+    let close = |want: f64, got: f64, tol: f64| -> bool {
+        if want == got { return true; }
+        if !got.is_finite() { return false; }
+        (got - want).abs() <= tol * want.abs() + f64::from_bits(1)
+    };
+    // radix-prefixed integers
+    let (radix, body) = if let Some(b) = t.strip_prefix("#b") { (2u32, b) } else if let Some(b) = t.strip_prefix("#o") { (8, b) } else if let Some(b) = t.strip_prefix("#x") { (16, b) } else if let Some(b) = t.strip_prefix("#d") { (10, b) } else { (0, t) };
+    if radix != 0 && radix != 10 || (radix == 10 && !body.contains(|c| c == '.' || c == 'e' || c == 'E')) || (radix == 0 && !body.is_empty() && body.trim_start_matches(|c| c == '+' || c == '-').bytes().all(|b| b.is_ascii_digit())) {
+        let radix = if radix == 0 { 10 } else { radix };
+        let (neg, digits) = match body.as_bytes().first() { Some(b'-') => (true, &body[1..]), Some(b'+') => (false, &body[1..]), _ => (false, body) };
+        if digits.is_empty() || !digits.chars().all(|c| c.is_digit(radix)) { return None; }
+        if radix == 0 { return None; }
+        if t.starts_with('+') || t.starts_with('-') { if digits.is_empty() { return None; } }
+        let mut exact: Option<u128> = Some(0);
+        let mut approx: f64 = 0.0;
+        for c in digits.chars() {
+            let d = c.to_digit(radix).unwrap();
+            exact = exact.and_then(|x| x.checked_mul(radix as u128)).and_then(|x| x.checked_add(d as u128));
+            approx = approx * radix as f64 + d as f64;
+        }
+        if let Some(x) = exact {
+            let v: i128 = if neg { -(x as i128) } else { x as i128 };
+            if x <= u64::MAX as u128 + 0 && v >= -(1i128 << 63) && v <= u64::MAX as i128 {
+                // in range: exactly that integer ("-0" is 0)
+                return if got_int == Some(v) { None } else { Some(format!("FAIL C05 integer literal {:?} = {} read as {}", t, v, res)) };
+            }
+        }
+        // out of the 64-bit range: a float approximating the true value, or out of range
+        let want = if radix == 10 { digits.parse::<f64>().unwrap_or(f64::INFINITY) } else { approx };
+        let want = if neg { -want } else { want };
+        if want.is_infinite() {
+            return if is_oor { None } else { Some(format!("FAIL C05 literal {:?} exceeds the range of a double but read as {}", &t[..t.len().min(40)], &res[..res.len().min(60)])) };
+        }
+        return match got_float {
+            Some(g) if close(want, g, if radix == 10 { 2f64.powi(-50) } else { 2f64.powi(-40) }) => None,
+            _ => Some(format!("FAIL C05 over-long integer literal {:?}... (about {:e}) read as {}", &t[..t.len().min(40)], want, &res[..res.len().min(60)])),
+        };
+    }
+    if radix != 0 && radix != 10 { return None; }
+    // decimal with fraction and/or exponent
+    let b = body.as_bytes();
+    let mut i = 0;
+    let neg = match b.first() { Some(b'-') => { i = 1; true } Some(b'+') => { i = 1; false } _ => false };
+    let s0 = i;
+    while i < b.len() && b[i].is_ascii_digit() { i += 1; }
+    if i == s0 { return None; }
+    let int_digits = &body[s0..i];
+    let mut frac = "";
+    if i < b.len() && b[i] == b'.' {
+        let f0 = i + 1; i = f0;
+        while i < b.len() && b[i].is_ascii_digit() { i += 1; }
+        if i == f0 { return None; }
+        frac = &body[f0..i];
+    }
+    let mut exp: i64 = 0;
+    if i < b.len() && (b[i] == b'e' || b[i] == b'E') {
+        i += 1;
+        let mut eneg = false;
+        if i < b.len() && (b[i] == b'+' || b[i] == b'-') { eneg = b[i] == b'-'; i += 1; }
+        let e0 = i;
+        while i < b.len() && b[i].is_ascii_digit() { i += 1; }
+        if i == e0 { return None; }
+        exp = body[e0..i].parse::<i64>().unwrap_or(i64::MAX / 4);
+        if eneg { exp = -exp; }
+    }
+    if i != b.len() { return None; }
+    if frac.is_empty() && !body.contains(|c| c == 'e' || c == 'E') { return None; }
+    let want = match body.parse::<f64>() { Ok(f) => f, Err(_) => return None };
+    let _ = neg;
+    if want.is_infinite() {
+        return if is_oor { None } else { Some(format!("FAIL C05 literal {:?} exceeds the range of a double but read as {}", &t[..t.len().min(40)], &res[..res.len().min(60)])) };
+    }
+    let g = match got_float { Some(g) => g, None => return Some(format!("FAIL C05 decimal literal {:?} read as {}", &t[..t.len().min(40)], &res[..res.len().min(60)])) };
+    let frac_sig = frac.trim_end_matches('0');
+    let sig_digits: String = format!("{}{}", int_digits, frac_sig).trim_start_matches('0').to_string();
+    let e10 = exp - frac_sig.len() as i64;
+    let sig_val: Option<u128> = if sig_digits.len() <= 38 { Some(sig_digits.parse::<u128>().unwrap_or(0)) } else { None };
+    let exact_region = (sig_val.map_or(false, |v| v < (1u128 << 53)) && e10.abs() <= 22) || (!fast && sig_digits.len() <= 19);
+    if exact_region {
+        if g.to_bits() == want.to_bits() || (g == 0.0 && want == 0.0) { None } else { Some(format!("FAIL C05 literal {:?} must be correctly rounded: {:e} ({:016x}) but read as {:016x}", t, want, want.to_bits(), g.to_bits())) }
+    } else if close(want, g, 2f64.powi(-50)) { None } else {
+        Some(format!("FAIL C05 literal {:?}...: {:e} read as {:e} (relative error above 2^-50)", &t[..t.len().min(40)], want, g))
+    }
+}
+
+/// C08: what a whole token at top level must read as, written from the option documentation.
+/// `None` = no expectation encoded here (the token is left to the correspondence).
+pub fn classify(tok: &str, r: &str) -> Option<String> {
+    let sym = |s: &str| format!("val Y{}", hex(s.as_bytes()));
+    let kw = |s: &str| format!("val K{}", hex(s.as_bytes()));
+    let (kpre, kpost, koct) = (d(r, 0) == 1, d(r, 1) == 1, d(r, 2) == 1);
+    Some(match tok {
+        "nil" => match d(r, 3) { 1 => sym("nil"), 0 => "val U".into(), _ => "val N".into() },
+        "t" => if d(r, 4) == 1 { sym("t") } else { "val T".into() },
+        "nilx" | "tt" | "T" | "NIL" | "a" | "ab" | "$x" | "..." | "a.b" | "nil.t" => sym(tok),
+        "nil:" | "a:" | "$x:" | "12:" | "x:y" | "a::" => {
+            if tok == "12:" { return None; }
+            if tok == "x:y" { return Some(sym(tok)); }
+            if kpost { kw(&tok[..tok.len() - 1]) } else { sym(tok) }
+        }
+        ":a" => if kpre { kw("a") } else { sym(":a") },
+        "#:a" => if koct { kw("a") } else { return None },
+        "#:a:" => if koct { kw("a:") } else { return None },
+        "?a" => if d(r, 7) == 1 { "val C61".into() } else { sym("?a") },
+        "#%a" => if d(r, 8) == 1 { sym("#%a") } else { return None },
+        "1" => "val P1".into(),
+        "12" => "val P12".into(),
+        "-1" => "val M-1".into(),
+        "+1" => "val P1".into(),
+        "1a" | "1+" | "1-" | "1/2" | "1.5.6" | "0x10" | "12ab" => if d(r, 9) == 1 { sym(tok) } else { return None },
+        "-" | "+" | "-a" => sym(tok),
+        "#t" => "val T".into(),
+        "#f" => "val F".into(),
+        "#nil" => "val N".into(),
+        "()" => "val U".into(),
+        "'a" => format!("val c Y{} c Y61 U", hex(b"quote")),
+        "`a" => format!("val c Y{} c Y61 U", hex(b"quasiquote")),
+        ",a" => format!("val c Y{} c Y61 U", hex(b"unquote")),
+        ",@a" => format!("val c Y{} c Y61 U", hex(b"unquote-splicing")),
+        "'nil" => format!("val c Y{} c {} U", hex(b"quote"), &classify("nil", r)?[4..]),
+        "'t" => format!("val c Y{} c {} U", hex(b"quote"), &classify("t", r)?[4..]),
+        "(a)" => "val c Y61 U".into(),
+        "[a]" => if d(r, 5) == 0 { "val c Y61 U".into() } else { "val V1 Y61".into() },
+        "[]" => if d(r, 5) == 0 { "val U".into() } else { "val V0".into() },
+        "#(a)" => "val V1 Y61".into(),
+        _ => return None,
+    })
+}
+
 pub fn check(line: &str, res: &str) -> Vec<String> {
     let t: Vec<&str> = line.split_whitespace().collect();
     let mut m: Vec<String> = Vec::new();
@@ -373,6 +515,20 @@ pub fn check(line: &str, res: &str) -> Vec<String> {
                     if !location_ok(&data, l, c) { m.push(format!("FAIL C19 error location {}:{} outside the input", l, c)); }
                 }
             }
+            if src == "b" && (api == "r:v:6" || api == "r:d:6") {
+                // C08: whole tokens alone at top level (the bare position of the token family)
+                if let Ok(text) = std::str::from_utf8(&data) {
+                    if let Some(want) = classify(text, ro) {
+                        let first = strip_dat(items[0]);
+                        if first.trim_end() != want || items.get(1) != Some(&"none") {
+                            m.push(format!("FAIL C08 token {:?} under options {} must read as {} but reads as {}", text, ro, want, res));
+                        }
+                    }
+                }
+            }
+            if api == "v1" && src == "b" && ro == R_DEFAULT {
+                if let Some(msg) = numeric_oracle(&data, res, t[1] == "1") { m.push(msg); }
+            }
             if api.starts_with("r:") {
                 let n_items = items.iter().filter(|i| **i != "none").count();
                 let cap: usize = api.rsplit(':').next().unwrap().parse().unwrap();
@@ -442,6 +598,12 @@ pub fn check(line: &str, res: &str) -> Vec<String> {
                     if api == "d1" { break; }
                 }
             }
+        }
+        "triv" => {
+            let (a, b) = res.split_once(" || ").unwrap_or(("", ""));
+            let strip = |x: &str| -> Vec<String> { x.split(" | ").map(strip_pos).collect() };
+            // the plain text is the reference: it must itself be a sequence of values
+            if !a.contains("err ") && !a.contains("panic") && strip(a) != strip(b) { m.push(format!("FAIL C12 trivia between tokens changed the result: {} vs {}", a, b)); }
         }
         "prefix" => {
             let data = unhex(t[4]);
@@ -587,21 +749,44 @@ pub fn depth_main(args: &[String]) -> i32 {
     let shape = args[1].clone();
     let n: usize = args[2].parse().unwrap();
     let h = std::thread::Builder::new().stack_size(2 * 1024 * 1024).spawn(move || {
+        let elem = |i: usize| -> Value {
+            match shape.as_str() { "nils" => Value::Nil, "nulls" => Value::Null, "strings" => Value::string("s"), _ => Value::from((i % 10) as u8) }
+        };
         let build = |n: usize| -> Value {
             let tail = if shape == "dotted" { Value::from(7) } else { Value::Null };
-            Value::append((0..n).map(|i| Value::from((i % 10) as u8)), tail)
+            Value::append((0..n).map(|i| elem(i)), tail)
         };
         let text = |n: usize| -> String {
-            let mut s = String::with_capacity(2 * n + 8);
+            let mut s = String::with_capacity(4 * n + 8);
+            if shape == "dotchain" {
+                // fully dotted notation: nesting, not length; must be rejected, not overflow the stack
+                for i in 0..n { s.push('('); s.push((b'0' + (i % 10) as u8) as char); s.push_str(" . "); }
+                s.push_str("()");
+                for _ in 0..n { s.push(')'); }
+                return s;
+            }
             s.push('(');
-            for i in 0..n { if i > 0 { s.push(' '); } s.push((b'0' + (i % 10) as u8) as char); }
+            for i in 0..n { if i > 0 { s.push(' '); } match shape.as_str() { "nils" => s.push_str("#nil"), "nulls" => s.push_str("()"), "strings" => s.push_str("\"s\""), _ => s.push((b'0' + (i % 10) as u8) as char) } }
             if shape == "dotted" { s.push_str(" . 7"); }
             s.push(')');
             s
         };
+        if shape == "dotchain" {
+            // any result is fine as long as the call returns
+            let t = text(n);
+            match op.as_str() {
+                "parse" => { let _ = lexpr::from_reader(t.as_bytes()).map(std::mem::forget); }
+                "parse_str" => { let _ = lexpr::from_str(&t).map(std::mem::forget); }
+                "parse_datum" => { let _ = lexpr::datum::from_reader(t.as_bytes()).map(std::mem::forget); }
+                _ => {}
+            }
+            return;
+        }
         match op.as_str() {
             "build" => { let v = build(n); std::mem::forget(v); }
             "drop" => { let v = build(n); drop(v); }
+            "parse_drop" => { let t = text(n); let v = lexpr::from_reader(t.as_bytes()).unwrap(); drop(v); }
+            "into_iter_drop" => { let v = build(n); if let Value::Cons(c) = v { let mut it = c.into_iter(); let _ = it.next(); drop(it); } }
             "parse" => { let t = text(n); let v = lexpr::from_reader(t.as_bytes()).unwrap(); std::mem::forget(v); }
             "parse_str" => { let t = text(n); let v = lexpr::from_str(&t).unwrap(); std::mem::forget(v); }
             "parse_datum" => { let t = text(n); let v = lexpr::datum::from_reader(t.as_bytes()).unwrap(); std::mem::forget(v); }
